@@ -70,6 +70,21 @@ of the protobuf field it is rebuilt from, or of the struct / message as a whole)
 change of this list means the snapshot path changed shape and is re-validated. In particular
 `RetentionPolicyInfo.MstVersions marshal: rpi.MstVersions != nil` — the version counters are
 written whether or not the policy still has measurements. -/
-theorem selfGuards_expected : selfGuards = ["Data.ReplicaGroups marshal: len(data.ReplicaGroups) > 0", "Data.ReplicaGroups unmarshal: !(len(pb.ReplicaGroups) == 0)", "DatabaseInfo.ContinuousQueries clone: di.ContinuousQueries != nil", "DatabaseInfo.ContinuousQueries unmarshal: len(pb.GetContinuousQueries()) > 0", "DatabaseInfo.Options clone: di.Options != nil", "DatabaseInfo.Options marshal: di.Options != nil", "DatabaseInfo.Options unmarshal: pb.GetOptions() != nil", "DatabaseInfo.RetentionPolicies clone: di.RetentionPolicies != nil", "DatabaseInfo.RetentionPolicies unmarshal: len(pb.GetRetentionPolicies()) > 0", "DatabaseInfo.ShardKey marshal: di.ShardKey.ShardKey != nil || di.ShardKey.Type != \"\" || di.ShardKey.ShardGroup != 0", "DatabaseInfo.ShardKey unmarshal: pb.ShardKey != nil", "DbPtInfo.Pti unmarshal: pb.GetPt() != nil", "DbPtInfo.Shards marshal: range pt.Shards", "DbPtInfo.Shards unmarshal: len(pb.Shards) > 0", "DownSamplePolicyInfo.Calls marshal: len(d.Calls) > 0", "DownSamplePolicyInfo.Calls unmarshal: range pb.GetCalls()", "DownSamplePolicyInfo.DownSamplePolicies marshal: len(d.DownSamplePolicies) > 0", "DownSamplePolicyInfo.DownSamplePolicies unmarshal: range pb.GetDownSamplePolicies()", "IndexGroupInfo.ClearInfo unmarshal: pb.GetClearInfo() != nil", "IndexGroupInfo.EndTime unmarshal: !(i == 0)", "IndexGroupInfo.Indexes clone: igi.Indexes != nil", "IndexGroupInfo.Indexes unmarshal: len(pb.GetIndexes()) > 0", "IndexGroupInfo.StartTime unmarshal: !(i == 0)", "MeasurementInfo.ColStoreInfo clone: msti.ColStoreInfo != nil", "MeasurementInfo.ColStoreInfo marshal: msti.ColStoreInfo != nil", "MeasurementInfo.ColStoreInfo unmarshal: pb.GetColStoreInfo() != nil", "MeasurementInfo.IndexRelation unmarshal: pb.GetIndexRelation() != nil", "MeasurementInfo.ObsOptions clone: msti.ObsOptions != nil", "MeasurementInfo.ObsOptions marshal: msti.ObsOptions != nil", "MeasurementInfo.ObsOptions unmarshal: pb.GetObsOptions() != nil", "MeasurementInfo.Options clone: msti.Options != nil", "MeasurementInfo.Options marshal: msti.Options != nil", "MeasurementInfo.Options unmarshal: pb.GetOptions() != nil", "MeasurementInfo.Schema unmarshal: pbSchema != nil", "MeasurementInfo.ShardIdexes marshal: msti.ShardIdexes != nil", "MeasurementInfo.ShardKeys clone: msti.ShardKeys != nil", "MeasurementInfo.ShardKeys marshal: msti.ShardKeys != nil", "MeasurementInfo.ShardKeys unmarshal: pb.GetShardKeys() != nil", "MeasurementVer.NameWithVersion unmarshal: len(pb.GetMstVersions()) > 0", "MeasurementVer.NameWithVersion unmarshal: range mstVersions", "MeasurementVer.Version unmarshal: len(pb.GetMstVersions()) > 0", "MeasurementVer.Version unmarshal: range mstVersions", "ReplicaClearInfo.ClearPeers marshal: !(rci == nil)", "ReplicaClearInfo.NoClearIndexId marshal: !(rci == nil)", "ReplicaGroup.Peers marshal: len(rg.Peers) > 0", "ReplicaGroup.Peers unmarshal: len(pb.GetPeers()) > 0", "RetentionPolicyInfo.DownSamplePolicyInfo marshal: rpi.DownSamplePolicyInfo != nil", "RetentionPolicyInfo.DownSamplePolicyInfo unmarshal: pb.GetDownSamplePolicyInfo() != nil", "RetentionPolicyInfo.IndexGroups clone: rpi.IndexGroups != nil", "RetentionPolicyInfo.IndexGroups unmarshal: len(pb.GetIndexGroups()) > 0", "RetentionPolicyInfo.Measurements clone: rpi.Measurements != nil", "RetentionPolicyInfo.Measurements marshal: len(rpi.Measurements) > 0", "RetentionPolicyInfo.Measurements unmarshal: len(pb.GetMeasurements()) > 0", "RetentionPolicyInfo.MstVersions clone: rpi.MstVersions != nil", "RetentionPolicyInfo.MstVersions marshal: rpi.MstVersions != nil", "RetentionPolicyInfo.MstVersions unmarshal: len(pb.GetMstVersions()) > 0", "RetentionPolicyInfo.ShardGroups clone: rpi.ShardGroups != nil", "RetentionPolicyInfo.ShardGroups unmarshal: len(pb.GetShardGroups()) > 0", "RetentionPolicyInfo.Subscriptions marshal: len(rpi.Subscriptions) > 0", "RetentionPolicyInfo.Subscriptions unmarshal: len(pb.GetSubscriptions()) > 0", "SchemaVal.EndTime unmarshal: pbSchema != nil", "SchemaVal.EndTime unmarshal: range pbSchema", "SchemaVal.Typ unmarshal: pbSchema != nil", "SchemaVal.Typ unmarshal: range pbSchema", "ShardDurationInfo.Ident unmarshal: pb.Ident != nil", "ShardGroupInfo.EndTime unmarshal: !(i == 0)", "ShardGroupInfo.Shards clone: sgi.Shards != nil", "ShardGroupInfo.Shards unmarshal: len(pb.GetShards()) > 0", "ShardGroupInfo.StartTime unmarshal: !(i == 0)", "ShardGroupInfo.TruncatedAt marshal: !sgi.TruncatedAt.IsZero()", "ShardGroupInfo.TruncatedAt unmarshal: pb != nil", "ShardGroupInfo.TruncatedAt unmarshal: pb.TruncatedAt != nil", "ShardKeyInfo.ShardGroup marshal: ski.ShardGroup > 0", "ShardKeyInfo.ShardGroup unmarshal: pb.GetSgID() > 0", "StreamInfo.Calls marshal: len(s.Calls) > 0", "StreamInfo.Calls unmarshal: len(pb.Calls) > 0", "StreamInfo.Dims marshal: len(s.Dims) > 0", "SubscriptionInfo.Destinations unmarshal: len(pb.GetDestinations()) > 0", "UserInfo.Privileges clone: u.Privileges != nil", "UserInfo.Privileges marshal: range u.Privileges", "UserInfo.Privileges unmarshal: len(pb.Privileges) > 0"] := by rfl
+theorem selfGuards_expected : selfGuards = ["Data.ReplicaGroups marshal: len(data.ReplicaGroups) > 0", "Data.ReplicaGroups unmarshal: !(len(pb.ReplicaGroups) == 0)", "DatabaseInfo.ContinuousQueries clone: di.ContinuousQueries != nil", "DatabaseInfo.ContinuousQueries unmarshal: len(pb.GetContinuousQueries()) > 0", "DatabaseInfo.Options clone: di.Options != nil", "DatabaseInfo.Options marshal: di.Options != nil", "DatabaseInfo.Options unmarshal: pb.GetOptions() != nil", "DatabaseInfo.RetentionPolicies clone: di.RetentionPolicies != nil", "DatabaseInfo.RetentionPolicies unmarshal: len(pb.GetRetentionPolicies()) > 0", "DatabaseInfo.ShardKey marshal: di.ShardKey.ShardKey != nil || di.ShardKey.Type != \"\" || di.ShardKey.ShardGroup != 0", "DatabaseInfo.ShardKey unmarshal: pb.ShardKey != nil", "DbPtInfo.Pti unmarshal: pb.GetPt() != nil", "DbPtInfo.Shards marshal: range pt.Shards", "DbPtInfo.Shards unmarshal: len(pb.Shards) > 0", "DownSamplePolicyInfo.Calls marshal: len(d.Calls) > 0", "DownSamplePolicyInfo.Calls unmarshal: range pb.GetCalls()", "DownSamplePolicyInfo.DownSamplePolicies marshal: len(d.DownSamplePolicies) > 0", "DownSamplePolicyInfo.DownSamplePolicies unmarshal: range pb.GetDownSamplePolicies()", "IndexGroupInfo.ClearInfo unmarshal: pb.GetClearInfo() != nil", "IndexGroupInfo.EndTime unmarshal: !(i == 0)", "IndexGroupInfo.Indexes clone: igi.Indexes != nil", "IndexGroupInfo.Indexes unmarshal: len(pb.GetIndexes()) > 0", "IndexGroupInfo.StartTime unmarshal: !(i == 0)", "MeasurementInfo.ColStoreInfo clone: msti.ColStoreInfo != nil", "MeasurementInfo.ColStoreInfo marshal: msti.ColStoreInfo != nil", "MeasurementInfo.ColStoreInfo unmarshal: pb.GetColStoreInfo() != nil", "MeasurementInfo.IndexRelation unmarshal: pb.GetIndexRelation() != nil", "MeasurementInfo.ObsOptions clone: msti.ObsOptions != nil", "MeasurementInfo.ObsOptions marshal: msti.ObsOptions != nil", "MeasurementInfo.ObsOptions unmarshal: pb.GetObsOptions() != nil", "MeasurementInfo.Options clone: msti.Options != nil", "MeasurementInfo.Options marshal: msti.Options != nil", "MeasurementInfo.Options unmarshal: pb.GetOptions() != nil", "MeasurementInfo.Schema unmarshal: pbSchema != nil", "MeasurementInfo.ShardIdexes marshal: msti.ShardIdexes != nil", "MeasurementInfo.ShardKeys clone: msti.ShardKeys != nil", "MeasurementInfo.ShardKeys marshal: msti.ShardKeys != nil", "MeasurementInfo.ShardKeys unmarshal: pb.GetShardKeys() != nil", "MeasurementVer.NameWithVersion unmarshal: len(pb.GetMstVersions()) > 0", "MeasurementVer.NameWithVersion unmarshal: range mstVersions", "MeasurementVer.Version unmarshal: len(pb.GetMstVersions()) > 0", "MeasurementVer.Version unmarshal: range mstVersions", "ReplicaClearInfo.ClearPeers marshal: !(rci == nil)", "ReplicaClearInfo.NoClearIndexId marshal: !(rci == nil)", "ReplicaGroup.Peers marshal: len(rg.Peers) > 0", "ReplicaGroup.Peers unmarshal: len(pb.GetPeers()) > 0", "RetentionPolicyInfo.DownSamplePolicyInfo clone: rpi.DownSamplePolicyInfo != nil", "RetentionPolicyInfo.DownSamplePolicyInfo marshal: rpi.DownSamplePolicyInfo != nil", "RetentionPolicyInfo.DownSamplePolicyInfo unmarshal: pb.GetDownSamplePolicyInfo() != nil", "RetentionPolicyInfo.IndexGroups clone: rpi.IndexGroups != nil", "RetentionPolicyInfo.IndexGroups unmarshal: len(pb.GetIndexGroups()) > 0", "RetentionPolicyInfo.Measurements clone: rpi.Measurements != nil", "RetentionPolicyInfo.Measurements marshal: len(rpi.Measurements) > 0", "RetentionPolicyInfo.Measurements unmarshal: len(pb.GetMeasurements()) > 0", "RetentionPolicyInfo.MstVersions clone: rpi.MstVersions != nil", "RetentionPolicyInfo.MstVersions marshal: rpi.MstVersions != nil", "RetentionPolicyInfo.MstVersions unmarshal: len(pb.GetMstVersions()) > 0", "RetentionPolicyInfo.ShardGroups clone: rpi.ShardGroups != nil", "RetentionPolicyInfo.ShardGroups unmarshal: len(pb.GetShardGroups()) > 0", "RetentionPolicyInfo.Subscriptions clone: rpi.Subscriptions != nil", "RetentionPolicyInfo.Subscriptions marshal: len(rpi.Subscriptions) > 0", "RetentionPolicyInfo.Subscriptions unmarshal: len(pb.GetSubscriptions()) > 0", "SchemaVal.EndTime unmarshal: pbSchema != nil", "SchemaVal.EndTime unmarshal: range pbSchema", "SchemaVal.Typ unmarshal: pbSchema != nil", "SchemaVal.Typ unmarshal: range pbSchema", "ShardDurationInfo.Ident unmarshal: pb.Ident != nil", "ShardGroupInfo.EndTime unmarshal: !(i == 0)", "ShardGroupInfo.Shards clone: sgi.Shards != nil", "ShardGroupInfo.Shards unmarshal: len(pb.GetShards()) > 0", "ShardGroupInfo.StartTime unmarshal: !(i == 0)", "ShardGroupInfo.TruncatedAt marshal: !sgi.TruncatedAt.IsZero()", "ShardGroupInfo.TruncatedAt unmarshal: pb != nil", "ShardGroupInfo.TruncatedAt unmarshal: pb.TruncatedAt != nil", "ShardKeyInfo.ShardGroup marshal: ski.ShardGroup > 0", "ShardKeyInfo.ShardGroup unmarshal: pb.GetSgID() > 0", "StreamInfo.Calls marshal: len(s.Calls) > 0", "StreamInfo.Calls unmarshal: len(pb.Calls) > 0", "StreamInfo.Dims marshal: len(s.Dims) > 0", "SubscriptionInfo.Destinations unmarshal: len(pb.GetDestinations()) > 0", "UserInfo.Privileges clone: u.Privileges != nil", "UserInfo.Privileges marshal: range u.Privileges", "UserInfo.Privileges unmarshal: len(pb.Privileges) > 0"] := by rfl
+
+/-! ### aliasing: reference-typed fields that `clone` shares with the live catalogue -/
+
+def aliasedFields : List (String × String) := (fieldTable.filter aliased).map fun r => (r.ty, r.field)
+
+set_option maxRecDepth 100000 in
+/-- exactly the recorded ones (`aliasAllowed` ++ `aliasKnown`): `Data.SqlNodes`,
+`RetentionPolicyInfo.Subscriptions` and `RetentionPolicyInfo.DownSamplePolicyInfo` were on this
+list until the `fix:` that makes `Clone` copy them. -/
+theorem aliasedFields_expected : aliasedFields = [
+    ("Data", "ReplicaGroups"), ("Data", "OpsMap"), ("Data", "SQLite"), ("ShardKeyInfo", "ShardKey"),
+    ("ColStoreInfo", "PrimaryKey"), ("ColStoreInfo", "SortKey"), ("ColStoreInfo", "PropertyKey"), ("ColStoreInfo", "PropertyValue"),
+    ("IndexGroupInfo", "ClearInfo"), ("ReplicaClearInfo", "ClearPeers"), ("SubscriptionInfo", "Destinations"),
+    ("DownSamplePolicyInfo", "Calls"), ("DownSamplePolicyInfo", "DownSamplePolicies"), ("DownSampleOperators", "AggOps"),
+    ("DbPtInfo", "Pti"), ("DbPtInfo", "Shards"), ("DbPtInfo", "DBBriefInfo"), ("ReplicaGroup", "Peers")] := by decide +kernel
 
 end OG.C15.Facts
